@@ -68,6 +68,36 @@ def syncmap_phase(run, tier, wd, binary, configs=None, what="sync2.Map/Concurren
     return drift
 
 
+def regstress_phase(run, tier, wd, binary):
+    """free-running histories of the real definition registry (no gates: interleavings INSIDE single operations), judged by
+    TraceRegHist.tla: a definition whose registration returned is in every later enumeration"""
+    sd = os.path.join(wd, "regstress")
+    os.makedirs(sd)
+    vlib.stage_specs(sd, ["TraceRegHist.tla"])
+    total = 0
+    for i, (rounds, g, per) in enumerate([(150, 6, 8), (60, 12, 6)] if tier == "quick" else [(1500, 6, 8), (600, 12, 6), (300, 16, 12)]):
+        json.dump(dict(rounds=rounds, g=g, per=per, seed=run.seed), open(os.path.join(sd, "in.json"), "w"))
+        p = vlib.run_harness(binary, ["regstress", "-in", "in.json", "-out", "rs%d.ndjson" % i], cwd=sd, timeout=900)
+        if p.returncode != 0:
+            raise vlib.Infra("regstress failed: " + p.stderr[-800:])
+        groups = el.split_trace(os.path.join(sd, "rs%d.ndjson" % i), marker='"a":"hist"')
+        st, fails = el.validate_groups(sd, groups, "TraceRegHist", {}, ["M_C10_NoLostDefinition", "M_C20_NoPhantomDefinition",
+                                                                         "M_C20_LookupFindsRegistered", "M_C20_OneWinnerPerName"], [], "rh%d" % i,
+                                       spec="MonitorSpec", max_failures=3)
+        run.cov["states"] += st["states"]
+        run.cov["transitions"] += st["generated"]
+        run.cov["traces_validated_against_impl"] += len(groups)
+        total += len(groups)
+        for f in fails:
+            if f["kind"] == "postcondition":
+                raise vlib.Infra("registry history monitor could not consume a history: " + f["tlc"][:400])
+            hist = [json.loads(x) for x in groups[f["group"]][1:]]
+            run.violation("real definition registry, free-running history of %d goroutines: %s violated" % (g, f["name"]),
+                          dict(kind="regstress", goroutines=g, per=per, history=hist[:400], operator=f["name"], tlc=f["tlc"][:1500]))
+    run.cov["registry_stress_histories"] = total
+    run.count_case(dict(kind="regstress", tier=tier), True)
+
+
 def scan_model(run, tier, wd):
     sd = os.path.join(wd, "scan")
     os.makedirs(sd)
@@ -169,7 +199,8 @@ def run_check(prop, tier, replay=None):
                 errs.append(e)
         ts = [threading.Thread(target=g, args=(syncmap_phase, run, tier, wd, binary)),
               threading.Thread(target=g, args=(scan_model, run, tier, wd)),
-              threading.Thread(target=g, args=(race_phase, run, tier, wd))]
+              threading.Thread(target=g, args=(race_phase, run, tier, wd)),
+              threading.Thread(target=g, args=(regstress_phase, run, tier, wd, binary))]
         for t in ts:
             t.start()
         for t in ts:
